@@ -230,7 +230,7 @@ OPT_WHAT = ("Option<T>::deserialize vs the spec's opt coercion (reference decode
             "opt W' flag 0 -> None; flag 1 or plain W: value read, Some(v) iff W <: T else None (value skipped through "
             "deserialize_ignored_any/deserialize_any); malformed bytes or bad flag -> Err even below opt; exact bytes "
             "consumed; skipped data charged to the skipping quota; option never free; no panic; cursor <= len")
-QUICK_OPT = {"c08_opt_u8_w_nat8", "c08_opt_u8_wo_bool", "c08_opt_u8_wo_nat8", "c08_opt_u8_w_reserved", "c08_opt_bool_wo_bool"}
+QUICK_OPT = {"c08_opt_u8_w_nat8", "c08_opt_u8_wo_bool", "c08_opt_u8_wo_nat8"}
 for under, tag in ((False, "w"), (True, "wo")):
     for p in PRIMS:
         n = f"c08_opt_u8_{tag}_{p}"
@@ -297,7 +297,7 @@ for n, d, q in (("surplus", "(u8,bool), wire record{0:nat8;1:bool;2:nat8}, unmet
 BV_WHAT = "Ok <=> count <= MAX_LEN and every element <= MAX_ELEM and sum <= MAX_TOTAL (and the vector fits the input)"
 add("C08", "c08_bvec_u8_len3_total8", "candid", "de_fast", "BoundedVec<3,8,1,u8>, symbolic count 0..127 in 7 bytes", BV_WHAT, est_s=200,
     cap_s=2400, cbmc_args=MEMCMP)
-add("C08", "c08_bvec_u8_len8_total3", "candid", "de_fast", "BoundedVec<8,3,1,u8>, symbolic count 0..127 in 7 bytes", BV_WHAT, est_s=200,
+add("C08", "c08_bvec_u8_len8_total3", "candid", "de_fast", "BoundedVec<8,3,1,u8>, symbolic count 0..127 in 7 bytes", BV_WHAT, quick=False, est_s=200,
     cap_s=2400, cbmc_args=MEMCMP)
 add("C08", "c08_bvec_u64_total16", "candid", "de_fast", "BoundedVec<4,16,8,u64>, symbolic count 0..3, 24 symbolic payload bytes",
     BV_WHAT + " — two u64 reach the total limit exactly", est_s=200, cap_s=2400, cbmc_args=MEMCMP)
